@@ -21,6 +21,8 @@ TRAVEL = 0.25
 # tree: >= 2.9 (2D quick), >= 1.85 (2D thorough), >= 1.88 (3D)
 COARSE_BOUND = {"lamb_oseen_2d": 1.3e-2, "blob_2d": 1.4e-2, "blob_3d": 1.65e-2, "blob_3d_vector": 1.55e-2}
 MIN_ORDER = 1.0
+# grid aspect ratios (ny/nx[, nz/nx]); the box is never shorter than the unit box, so the 5-sigma margin to the boundary is kept
+ASPECTS = {2: [(1.0,), (1.5,), (1.25,)], 3: [(1.25, 1.5), (1.0, 1.0), (1.5, 1.0)]}
 
 
 def lamb_w(x, y, c, nu, gamma, t):
@@ -50,7 +52,14 @@ def draw(r, fam):
     nu = float(r.uniform(1.6e-3, 2.6e-3)) if d == 2 else float(r.uniform(5.5e-3, 7e-3))
     peak = float(r.uniform(0.3, 0.8))
     off = r.uniform(-0.02, 0.02, size=d)
-    return {"family": fam, "u": u, "nu": nu, "peak": peak, "offset": off, "t0": 1.0}
+    return {"family": fam, "u": u, "nu": nu, "peak": peak, "offset": off, "t0": 1.0, "aspect": (1.0,) * (d - 1)}
+
+
+def own_coordinates(shape, dx):
+    """cell centres (k + 1/2) dx written here, independently of the simulator's position_field; component order (x, y[, z])"""
+    axes = [(np.arange(n) + 0.5) * dx for n in shape]
+    mesh = np.meshgrid(*axes, indexing="ij")
+    return [m.astype(float) for m in mesh[::-1]]
 
 
 def run_case(case, n, real_t):
@@ -58,22 +67,27 @@ def run_case(case, n, real_t):
 
     fam, u, nu, t0 = case["family"], case["u"], case["nu"], case["t0"]
     d = len(u)
-    c0 = 0.5 + case["offset"] - 0.5 * u * TRAVEL
+    # grid (nz, ny, nx) = (round(a_z n), round(a_y n), n); x_range = 1, so dx = 1/n and the box is 1 x a_y (x a_z)
+    asp = tuple(case.get("aspect", (1.0,) * (d - 1)))
+    shape = tuple(int(round(a * n)) for a in asp[::-1]) + (n,)
+    extent = np.array([1.0] + [shape[d - 1 - c] / n for c in range(1, d)])
+    c0 = 0.5 * extent + case["offset"] - 0.5 * u * TRAVEL
+    own = own_coordinates(shape, 1.0 / n)
     with warnings.catch_warnings():
         warnings.simplefilter("ignore")
         if fam == "lamb_oseen_2d":
-            sim = sps.UnboundedNavierStokesFlowSimulator2D(grid_size=(n, n), x_range=1.0, kinematic_viscosity=nu, with_free_stream_flow=True,
+            sim = sps.UnboundedNavierStokesFlowSimulator2D(grid_size=shape, x_range=1.0, kinematic_viscosity=nu, with_free_stream_flow=True,
                                                            real_t=real_t, time=t0)
             x, y = sim.position_field[0].astype(float), sim.position_field[1].astype(float)
             gamma = 4 * np.pi * nu * t0 * case["peak"]
             sim.vorticity_field[...] = lamb_w(x, y, c0, nu, gamma, t0)
             sim.velocity_field[...] = lamb_u(x, y, c0, nu, gamma, t0) + u.reshape(2, 1, 1)
             field = lambda: sim.vorticity_field  # noqa: E731
-            exact = lambda c, t: lamb_w(x, y, c, nu, gamma, t)  # noqa: E731
+            exact = lambda c, t: lamb_w(own[0], own[1], c, nu, gamma, t)  # noqa: E731
             step = lambda dt: sim.time_step(dt=dt, free_stream_velocity=u.astype(real_t))  # noqa: E731
         else:
             vec = fam.endswith("vector")
-            sim = sps.PassiveTransportFlowSimulator(kinematic_viscosity=nu, grid_dim=d, grid_size=(n,) * d, x_range=1.0, real_t=real_t,
+            sim = sps.PassiveTransportFlowSimulator(kinematic_viscosity=nu, grid_dim=d, grid_size=shape, x_range=1.0, real_t=real_t,
                                                     time=t0, field_type="vector" if vec else "scalar")
             pos = [sim.position_field[i].astype(float) for i in range(d)]
             amp = case["peak"] * (4 * np.pi * nu * t0) ** (d / 2)
@@ -85,7 +99,8 @@ def run_case(case, n, real_t):
             for i in range(d):
                 sim.velocity_field[i] = u[i]
             field = lambda: sim.primary_field  # noqa: E731
-            exact = (lambda c, t: comps.reshape(3, 1, 1, 1) * blob(pos, c, nu, t, amp)) if vec else (lambda c, t: blob(pos, c, nu, t, amp))  # noqa: E731
+            # initial condition on the simulator's OWN coordinate field (as a user writes it), reference on independent coordinates
+            exact = (lambda c, t: comps.reshape(3, 1, 1, 1) * blob(own, c, nu, t, amp)) if vec else (lambda c, t: blob(own, c, nu, t, amp))  # noqa: E731
             step = lambda dt: sim.time_step(dt=dt)  # noqa: E731
         t_end = t0 + TRAVEL
         while sim.time < t_end - 1e-12:
@@ -127,11 +142,12 @@ def run(seed=0, tier="quick", aimed=None):
             pat = (k + seed) % (2 ** d)
             signs = np.array([1.0 if (pat >> i) & 1 == 0 else -1.0 for i in range(d)])
             case["u"] = np.abs(case["u"]) * signs
+            case["aspect"] = ASPECTS[d][(k + seed) % len(ASPECTS[d])]
             real_t = np.float64 if (k + seed) % 2 == 0 else np.float32
             res, errs, order = study(case, tier, real_t)
             cases += len(res)
             quad[str(tuple(int(s) for s in signs))] = quad.get(str(tuple(int(s) for s in signs)), 0) + 1
-            info = {"family": fam, "free_stream": case["u"].tolist(), "nu": case["nu"], "peak": case["peak"], "offset": case["offset"].tolist(),
+            info = {"family": fam, "aspect_ny_nz_over_nx": list(case["aspect"]), "free_stream": case["u"].tolist(), "nu": case["nu"], "peak": case["peak"], "offset": case["offset"].tolist(),
                     "dtype": real_t.__name__, "resolutions": list(res), "relative_L2_errors": errs, "fitted_order": order, "dt_prefac": PREFAC}
             bad = None
             if not order >= MIN_ORDER:
@@ -173,6 +189,7 @@ if __name__ == "__main__":
                 d = len(case["u"])
                 pat = (k + seed) % (2 ** d)
                 case["u"] = np.abs(case["u"]) * np.array([1.0 if (pat >> i) & 1 == 0 else -1.0 for i in range(d)])
+                case["aspect"] = ASPECTS[d][(k + seed) % len(ASPECTS[d])]
                 for real_t in (np.float64, np.float32):
                     res, errs, order = study(case, tier, real_t)
                     w = worst.setdefault(fam, {"coarse": 0.0, "order": 99.0, "env": 0.0})
